@@ -24,11 +24,11 @@ CLAIMS = {
  "C19": "Token-sequence exploration of the real parser with one header column: every accepted row records starting line + number of line-break tokens consumed before it (N <= 2 arbitrary tokens, and 0-1 arbitrary tokens between a loop / while header and its body, repeat rows); Parser::get counts exactly the line breaks and peek/at/peek_span none; the header parser starts at 1, counts one per line break (<= 4 header tokens) and hands the count over; X/C expansions of two source rows on different lines keep each row's own line (bounded get_row harness). Outside: which bytes become line-break tokens (lexer).",
  "C11": "The pieces that decide the verdict: parser arms build scopes as prescribed (loop / repeat frame around the body, bound outside; while none; let after its initialiser; declare with the variable set emptied and restored) over the statements' token streams with sub-parsers as events; identifiers recorded as output reads iff not in scope; C recorded under the header name of its column (bits(k) counting k); with_signals runs its five checks in order, first error wins, Ok iff all pass; matchers of check_and_consume_expected_inputs / build_read_outputs; check_missing_signals (2 columns, bounded); build_indices incl. exact `<name>_out`. The composition into an iff over whole programs is argued, not mechanised.",
  "C15": "Parser::finish returns every HashMap-derived list only after sorting it (data-flow over the trace); try_iter_static fails iff read_outputs is non-empty and otherwise builds the iterator over this very test; StaticDataRow conversion (<= 2 outputs); iterators borrow the test immutably and TestCase has no interior mutability (signature / type facts); variable maps restored after a fault; output reads recorded by the parser (static gate sees them). Interleavings beyond immutability are argued, not mechanised.",
+ "C16": "roxmltree is an uninterpreted environment: load_test (index check, the selected test's own source, bound to a clone of the file's signals) and load_test_by_name (first match, <= 3 tests, string identities); attrib returns the last child of an entry whose FIRST child is the <string> key; width default 1; File::parse (<= 2 tests) builds its name sets once and never empties them while scanning, and its panic sites are either unreachable or on the assumed-unreachable list and replayed. Outside: totality over arbitrary XML text (roxmltree), text_pos_to_range.",
  "C10": "Kernels that used to panic (arithmetic, zero divisors, empty random range, signExt, unknown variable, loop counter overflow) proved panic-free for all values in both profiles; variables-first lookup as the invariant behind the counter read-back.",
  "C13": "Driver errors leave try_new / handle_io / the provided write_input at once as IterationError::Driver with the driver's own value; extract_output_values rejects a wrong output count before evaluating anything and attributes a value only after the identity check of the very answer entry it uses (closure level and whole function with <= 2 expected entries).",
 }
 NA = {
- "C16": "not claimed yet in this session (planned: load_test*, extraction helpers, dig.rs panic sites)",
  "C20": "not claimed: statement about the logos-generated lexer DFA on arbitrary bytes; see DESIGN.md section 4",
 }
 
